@@ -15,7 +15,7 @@ if [ "$MODE" = "--inplace" ]; then
 else
   WT=$(mktemp -d /tmp/seedrun.XXXXXX)
   git -C /repo worktree add -q --detach "$WT" HEAD || exit 2
-  ( cd "$WT" && git apply "$PATCH" ) || { echo "patch does not apply"; git -C /repo worktree remove --force "$WT"; exit 2; }
+  ( cd "$WT" && ( git apply "$PATCH" 2>/dev/null || git apply -3 "$PATCH" ) ) || { echo "patch does not apply"; git -C /repo worktree remove --force "$WT"; exit 2; }
   cd /verif; MPYC_REPO="$WT" ./check "$P" --tier "$TIER" > "$LOG" 2>&1; rc=$?
   git -C /repo worktree remove --force "$WT" >/dev/null 2>&1; rm -rf "$WT"
 fi
